@@ -359,6 +359,97 @@ func (cs *c08case) bytesItem(sc *sctx, kind string) hostile {
 	return h
 }
 
+// runRace is mode "race": a deterministic hostile history with a timing
+// window.  The peer calls a method that returns a capability hosted by the
+// Conn; while the Return is being written (the link holds it back; the new
+// export is already in the table) the peer sends Finish{releaseResultCaps}
+// and a Release for the new export with its full count; then the Return goes
+// out.  Releasing the result caps on behalf of the Finish now fails (export
+// already gone): a protocol violation the Conn discovers on the goroutine of
+// the returning call.  Whatever it does about it, it must stay alive or shut
+// down - not wedge.
+func (cs *c08case) runRace(sc *sctx) {
+	b := sc.b
+	p := b.peer
+	pl := b.lk.(*pipeLink)
+	b.setAction("release-races-return")
+	sc.step("peer-bootstrap")
+	q0 := p.newManualQuestion()
+	p.send(mkBootstrap(q0))
+	if !sc.wait("bootstrap-return", func() bool { return p.sawReturn(q0) != nil }) {
+		return
+	}
+	p.mu.Lock()
+	exp, _ := exportFromReturn(p.sawReturn(q0))
+	p.mu.Unlock()
+	p.sendFinish(q0)
+	sc.step("cap-returning-call")
+	qc := p.newManualQuestion()
+	pl.armHold(qc)
+	method := mGetCapAck
+	p.send(mkCall(qc, func(t rpccp.MessageTarget) { t.SetImportedCap(exp) }, ifaceID, method, 1, nil))
+	id := b.ops.begin("peer-wait:return-being-sent")
+	select {
+	case <-pl.holdSending:
+	case <-b.conn.Done():
+		b.ops.end(id)
+		return
+	}
+	b.ops.end(id)
+	// the new export is in the table now
+	var newExp uint32
+	var refs uint32
+	b.awaitCond("snap:new-export", func() bool {
+		st := b.snapshot()
+		if !st.Locked {
+			return false
+		}
+		for e, n := range st.ExportRefs {
+			if e != exp {
+				newExp, refs = e, n
+				return true
+			}
+		}
+		return false
+	})
+	sc.markHostile()
+	cs.mu.Lock()
+	cs.items = append(cs.items, fmt.Sprintf("finish[q=%d,releaseResultCaps] + release[export=%d,count=%d] while return(a=%d) is being written", qc, newExp, refs, qc))
+	cs.mu.Unlock()
+	if cs.rng.Bool() {
+		p.send(mkFinish(qc, true))
+		p.send(mkRelease(newExp, refs))
+	} else {
+		p.send(mkRelease(newExp, refs))
+		p.send(mkFinish(qc, true))
+	}
+	b.awaitCond("snap:export-released", func() bool {
+		st := b.snapshot()
+		if !st.Locked {
+			return false
+		}
+		_, still := st.ExportRefs[newExp]
+		return !still || st.ShutdownDone
+	})
+	b.rec.Count("race_release_vs_return", 1)
+	close(pl.holdProceed)
+	// probe: answered, or the Conn shuts the connection down
+	pq := uint32(probeBase + 1)
+	p.mu.Lock()
+	p.myQ[pq] = "open"
+	p.mu.Unlock()
+	p.send(mkBootstrap(pq))
+	alive := p.waitFor("probe", func() bool { return p.sawReturn(pq) != nil })
+	if !alive {
+		cs.aborted = true
+		b.rec.Count("reaction_release-races-return_shutdown", 1)
+	} else {
+		b.rec.Count("reaction_release-races-return_alive", 1)
+		b.checkLocksFree("after-race")
+		cs.localProbe(sc)
+	}
+}
+
 var bytesKinds = []string{"ptr-corrupt", "ptr-corrupt", "ptr-corrupt", "ptr-corrupt", "truncated-frame", "hostile-header", "garbage", "call", "return"}
 
 func runC08(cfg *common.Config, rec *common.Recorder) {
@@ -366,7 +457,7 @@ func runC08(cfg *common.Config, rec *common.Recorder) {
 		rng := common.NewRNG(common.CaseSeed(cfg.Seed, cfg.Prop+"/"+cfg.Mode, i))
 		cs := &c08case{rec: rec, mode: cfg.Mode, rng: rng}
 		switch cfg.Mode {
-		case "fuzz":
+		case "fuzz", "race":
 			cs.link = "pipe"
 		case "fuzzstream", "bytes":
 			cs.link = []string{"stream", "packed"}[rng.Intn(2)]
@@ -378,6 +469,10 @@ func runC08(cfg *common.Config, rec *common.Recorder) {
 		deadlines := rng.Bool()
 		cs.inject = 1 + rng.Intn(c08Steps)
 		n := 1 + rng.Intn(8)
+		if cfg.Mode == "race" {
+			n = 0
+			cs.kinds = []string{"release-races-return"}
+		}
 		for k := 0; k < n; k++ {
 			if cfg.Mode == "bytes" {
 				cs.kinds = append(cs.kinds, bytesKinds[rng.Intn(len(bytesKinds))])
@@ -408,11 +503,15 @@ func runC08(cfg *common.Config, rec *common.Recorder) {
 			bmu.Unlock()
 			sc := newSctx(nb)
 			sc.stepHook = func(sc *sctx, n int, name string) {
-				if n == cs.inject {
+				if n == cs.inject && cfg.Mode != "race" {
 					cs.injectAll(sc)
 				}
 			}
-			c08History(sc)
+			if cfg.Mode == "race" {
+				cs.runRace(sc)
+			} else {
+				c08History(sc)
+			}
 			nb.setStep("after-history")
 			nb.checkLocksFree("after-history")
 			nb.finish(false)
